@@ -305,7 +305,6 @@ pub fn run_generated(check: &dyn Check, cases: u64, seed: u64, threads: usize) -
                         }
                     });
                     if let Err(TestError::Fail(_, tape)) = result {
-                        stop.store(true, Ordering::Relaxed);
                         let case = check.decode(&tape, th);
                         let out = check.eval(&case, &mut ctx_cell.borrow_mut());
                         let mut case = case;
@@ -323,6 +322,12 @@ pub fn run_generated(check: &dyn Check, cases: u64, seed: u64, threads: usize) -
                                     }
                                 }
                             }
+                        }
+                        // only a failure that reproduces ends the search of the other threads: one that depends on what this thread
+                        // evaluated before (state kept per thread by the code under test) leaves the others looking for a
+                        // self-contained case
+                        if matches!(verdict, Verdict::Fail(..)) {
+                            stop.store(true, Ordering::Relaxed);
                         }
                         let (signature, detail) = match verdict {
                             Verdict::Fail(s, d) => (s, d),
